@@ -6,7 +6,8 @@ ID = "C07"
 DRIVER = "resolver"
 ML_EXTRA = ("vmsg.ml",)
 COQ_TARGETS = ["Properties/C07.vo"]
-THEOREMS = ["C07_referral_strictly_deeper", "C07_auth_answer_from_universe", "C07_example_two_level"]
+THEOREMS = ["C07_referral_strictly_deeper", "C07_auth_answer_from_universe", "C07_example_two_level",
+            "C07_referral_progress", "C07_no_referral_same_delegation", "C07_answer_provenance"]
 RULE = ("cases: generated consistent universes (root + a chain of 1..5 nested zones, optional provider branch for "
         "out-of-bailiwick nameserver names, optional second branch for cross-zone aliases; 1..3 nameservers per zone, "
         "in-bailiwick / sibling / out-of-bailiwick names, glue present or absent, v4-only / v6-only / dual addresses) x "
